@@ -310,6 +310,20 @@ func run(sc *Scenario, src func(i int, h *hstate) *Ev) {
 			return
 		}
 		ev.Obs = h.describe(sent)
+		if ev.Kind == "tunf" && ev.FaultErr == "err" && ev.FaultK == 0 && ev.FaultPeer < sc.NPeers {
+			// If the refused Send was a handshake initiation, the device has replaced its handshake state and the
+			// initiation we may still hold for that peer can no longer be answered: forget it unless a new one
+			// was seen on the wire in this step.
+			fresh := false
+			for _, o := range ev.Obs {
+				if o.Kind == 1 && o.Peer == ev.FaultPeer+1 {
+					fresh = true
+				}
+			}
+			if !fresh {
+				h.lastInit[ev.FaultPeer] = nil
+			}
+		}
 		sc.Evs = append(sc.Evs, ev)
 	}
 }
